@@ -24,6 +24,14 @@ Workloads
           either side, then a NEW connection of that device (same or third device, either direction, the peripheral
           reached through a random / public / advertising-set address): address relations, and every PDU of the new
           connection delivered exactly once, in order, to its peer and to nobody else
+  both    the SAME two dual-mode devices connected over LE (public / random own address on either side, either one central,
+          legacy / extended advertiser) AND over BR/EDR (either one initiator) at once, in either order, a bystander
+          sometimes connected too: address relations, four live handles filed under the right transport, interleaved PDUs on
+          all four directions out under the handle of the connection they were sent on; one link ended by either side is
+          reported for that handle only and the other link goes on carrying data; the ended link is sometimes made again
+  rpa     LE privacy: devices whose random own address is a resolvable private address rotated every le_rpa_timeout
+          (0-3 rotations before / between connections), connected to through it or connecting with it: both ends report
+          matching addresses, equal to the address the controller / advertising set was given (read from the HCI tap)
 """
 from __future__ import annotations
 
@@ -40,8 +48,13 @@ RULE = ('seeded scenarios; mesh: non-trivial when >= 3 devices or a public own-a
         'scan: one per (scanner modes, advertiser kinds, payload lengths); dual: one per (advertiser kind, own-address '
         'types, auto-restart, order of connects / disconnects / stop / start); pending: one per (advertiser kind, own-address '
         'type advertised / used by the pending connect / used by the incoming central, order, outcome); recon: one per '
-        '(buffer count, address kinds, directions, who sends the bulk, who disconnects)')
+        '(buffer count, address kinds, directions, who sends the bulk, who disconnects); both: one per (LE central, BR/EDR '
+        'initiator, LE own-address types of both sides, advertiser kind, order of the two connects, which link ends first '
+        'and by whom, bystander link); rpa: one per (which devices use privacy, rotation period, rotations before each '
+        'connection, roles)')
 ASSUMPTIONS = [
+    'rpa: the random address a device is reachable at / connects with is the one its controller (or the advertising set made '
+    'for the advertising) was last given over HCI, as read from the HCI tap',
     'pending: a connect() to a peer that does not advertise yet legitimately pends; the own address of a connection is the '
     'address that was on the air for it (the advertised address for the acceptor, the address of the own-address type given '
     'to connect() for the initiator)',
@@ -66,7 +79,12 @@ MIN_EVENTS = {
               'pending_outgoing_completed_after_incoming': 150, 'pending_outgoing_timed_out': 25,
               'recon_cases': 180, 'recon_bulk_transfers_cut': 180, 'recon_bulk_transfers_cut_from_A': 100,
               'recon_new_connections_after_cut': 180, 'recon_connections_public': 100, 'recon_connections_set_random': 20,
-              'recon_connections_set_public': 25},
+              'recon_connections_set_public': 25,
+              'both_links_up': 200, 'both_payloads_checked': 5000, 'both_survivor_exchanges': 200, 'both_links_made_again': 60,
+              'both_links_up_le_adv_public_init_public': 50, 'both_links_up_le_adv_public_init_random': 25,
+              'both_links_up_le_adv_random_init_public': 25, 'both_handle_sets_checked': 400,
+              'rpa_cases': 150, 'rpa_connections': 200, 'rpa_rotations_seen': 600, 'rpa_connections_after_rotation_of_central': 90,
+              'rpa_connections_after_rotation_of_peripheral': 100, 'rpa_peripheral_address_from_advertising_set': 60},
     'thorough': {'connections_checked': 10000, 'payloads_checked': 60000, 'disconnections_checked': 7000,
                  'adv_events_checked': 6000, 'steal_cases': 1000, 'churn_cases': 1000, 'fragadv_cases': 400, 'ghost_cases': 200,
                  'advset_phases_verified': 2400, 'last_words_checked': 1200, 'advset_handle_reused_after_remove': 300,
@@ -77,7 +95,12 @@ MIN_EVENTS = {
                  'pending_outgoing_completed_after_incoming': 1200, 'pending_outgoing_timed_out': 200,
                  'recon_cases': 1400, 'recon_bulk_transfers_cut': 1400, 'recon_bulk_transfers_cut_from_A': 800,
                  'recon_new_connections_after_cut': 1400, 'recon_connections_public': 800, 'recon_connections_set_random': 160,
-                 'recon_connections_set_public': 200},
+                 'recon_connections_set_public': 200,
+                 'both_links_up': 1600, 'both_payloads_checked': 40000, 'both_survivor_exchanges': 1600, 'both_links_made_again': 500,
+                 'both_links_up_le_adv_public_init_public': 400, 'both_links_up_le_adv_public_init_random': 200,
+                 'both_links_up_le_adv_random_init_public': 200, 'both_handle_sets_checked': 3200,
+                 'rpa_cases': 1100, 'rpa_connections': 1500, 'rpa_rotations_seen': 4500, 'rpa_connections_after_rotation_of_central': 650,
+                 'rpa_connections_after_rotation_of_peripheral': 750, 'rpa_peripheral_address_from_advertising_set': 450},
 }
 CASE_TIMEOUT = 300
 CID = 0x0074
@@ -107,6 +130,10 @@ def plan(tier, seed):
         cases.append({'kind': 'pending', 'seed': seed * 1000003 + i})
     for i in range(200 if tier == 'quick' else 1600):
         cases.append({'kind': 'recon', 'seed': seed * 1000003 + i})
+    for i in range(240 if tier == 'quick' else 1900):
+        cases.append({'kind': 'both', 'seed': seed * 1000003 + i})
+    for i in range(160 if tier == 'quick' else 1200):
+        cases.append({'kind': 'rpa', 'seed': seed * 1000003 + i})
     return cases
 
 
@@ -1427,6 +1454,430 @@ async def recon(case, r: R):
     r.sample = {'kind': 'recon', 'buffers': num, 'extended_adv': ext, 'history': hist}
 
 
+async def both(case, r: R):
+    """The SAME two dual-mode devices A and B are connected over LE (legacy / extended advertiser, PUBLIC / RANDOM own
+    address on either side, either of them central) AND over BR/EDR (either of them initiator) at the same time, in
+    either order, with a third device as bystander (sometimes connected to A as well). Both ends report both
+    connections with matching addresses, four live handles; PDUs interleaved on the four directions (some needing several
+    fragments) come out exactly once, in order, under the handle of the connection they were sent on; one link is then
+    disconnected by either side: reported to both for that handle only, the other link still carries data both ways;
+    sometimes the ended link is made again."""
+    from bumble import hci, core
+    from bumble.core import PhysicalTransport
+    from vlib import rig as vrig
+    rng = random.Random(case['seed'] ^ 0xB07A)
+    vrig.seed_entropy(case['seed'])
+    ext = [rng.random() < 0.4 for _ in range(3)]
+    rg = make_rig(rng, case, 3, ext, classic=True)
+    await rg.power_on()
+    ev = Events(rg)
+    r.ev('both_cases')
+    hist = []
+    counter = [0]
+    le_c = rng.choice([0, 1])               # LE central (the other one is the peripheral)
+    le_p = 1 - le_c
+    bi = rng.choice([0, 1])                 # BR/EDR initiator
+    ba = 1 - bi
+    adv_kind = rng.choice(['public', 'public', 'random'])
+    init_kind = rng.choice(['public', 'public', 'random'])
+    label = f'le-adv-{adv_kind}/le-init-{init_kind}'
+
+    def ctx():
+        return (f'LE central={le_c} ({init_kind}) peripheral={le_p} ({adv_kind}), BR/EDR initiator={bi}; ext={ext}; '
+                f'history {hist}')
+
+    links = {}      # 'le' / 'bredr' -> {dev: Connection}
+
+    async def connect_le():
+        before = len(ev.conn[le_p])
+        target = await advertise_as(rg, le_p, adv_kind)
+        own = hci.OwnAddressType.PUBLIC if init_kind == 'public' else hci.OwnAddressType.RANDOM
+        cc = await vloop.vwait(rg.devices[le_c].connect(target, own_address_type=own, timeout=20))
+        await rg.quiesce()
+        new = [c for c in ev.conn[le_p][before:] if c.transport == PhysicalTransport.LE]
+        r.ev('oracle_evals')
+        if len(new) != 1 or len(ev.conn[le_p][before:]) != 1:
+            r.bad(f'connect/peer-events/both/le/{label}', f'device {le_p} got {len(ev.conn[le_p][before:])} connection events '
+                                                          f'for one LE connect; {ctx()}')
+            return False
+        init_addr = rg.devices[le_c].public_address if init_kind == 'public' else rg.devices[le_c].random_address
+        hist.append('le-connected')
+        links['le'] = {le_c: cc, le_p: new[0]}
+        return address_relations(r, f'both/le/{label}', cc, new[0], target, init_addr, ctx)
+
+    async def connect_bredr():
+        before = len(ev.conn[ba])
+        ci = await vloop.vwait(rg.devices[bi].connect(rg.devices[ba].public_address, transport=PhysicalTransport.BR_EDR,
+                                                      timeout=20))
+        await rg.quiesce()
+        new = ev.conn[ba][before:]
+        r.ev('oracle_evals')
+        if len(new) != 1:
+            r.bad(f'connect/peer-events/both/bredr/{label}', f'device {ba} got {len(new)} connection events for one BR/EDR '
+                                                             f'connect; {ctx()}')
+            return False
+        hist.append('bredr-connected')
+        links['bredr'] = {bi: ci, ba: new[0]}
+        r.ev('connections_checked')
+        r.ev('oracle_evals', 3)
+        ok = True
+        for what, got, want in (('initiator.peer_address', ci.peer_address, rg.devices[ba].public_address),
+                                ('acceptor.peer_address', new[0].peer_address, rg.devices[bi].public_address),
+                                ('initiator.transport', ci.transport, PhysicalTransport.BR_EDR),
+                                ('acceptor.transport', new[0].transport, PhysicalTransport.BR_EDR)):
+            if got != want:
+                ok = False
+                r.bad(f'connect/address-mismatch/both/bredr/{label}', f'{what} is {got!r}, expected {want!r}; {ctx()}')
+        return ok
+
+    def handles_ok(phase):
+        """Every live connection of A and B has its own handle, known to the Device, the Host and the controller,
+        and the controller files it under the right transport."""
+        r.ev('oracle_evals')
+        r.ev('both_handle_sets_checked')
+        for d in (0, 1):
+            mine = [(tr, l[d]) for tr, l in links.items()]
+            hs = [c.handle for _tr, c in mine]
+            dev_hs = [c.handle for c in rg.devices[d].connections.values()]
+            ctl_le = [c.handle for c in rg.controllers[d].le_connections.values()]
+            ctl_br = [c.handle for c in rg.controllers[d].classic_connections.values()]
+            want_le = sorted(c.handle for tr, c in mine if tr == 'le') + sorted(x[d].handle for x in [extra_link] if x and d in x and extra_tr == 'le')
+            want_br = sorted(c.handle for tr, c in mine if tr == 'bredr') + sorted(x[d].handle for x in [extra_link] if x and d in x and extra_tr == 'bredr')
+            if len(set(hs)) != len(hs) or any(h not in dev_hs for h in hs) or len(set(dev_hs)) != len(dev_hs) \
+                    or sorted(ctl_le) != sorted(want_le) or sorted(ctl_br) != sorted(want_br):
+                r.bad(f'connect/handles/both/{phase}/{label}',
+                      f'device {d}: connections {[(tr, hex(c.handle)) for tr, c in mine]}, Device has {dev_hs}, controller LE '
+                      f'{ctl_le} BR/EDR {ctl_br}; {ctx()}')
+                return False
+        return True
+
+    async def exchange(phase):
+        """Unique PDUs interleaved on every direction of every live link."""
+        marks = {i: len(ev.rx[i]) for i in range(3)}
+        want = {i: [] for i in range(3)}
+        meta = {}
+        dirs = []
+        for tr, l in links.items():
+            (x, cx), (y, cy) = sorted(l.items())
+            dirs += [(tr, x, y, cx, cy), (tr, y, x, cy, cx)]
+        if extra_link:
+            (x, cx), (y, cy) = sorted(extra_link.items())
+            dirs += [('extra-' + extra_tr, x, y, cx, cy), ('extra-' + extra_tr, y, x, cy, cx)]
+        for rnd in range(rng.randint(2, 4)):
+            rng.shuffle(dirs)
+            for (tr, s_, d_, cs, cd) in dirs:
+                counter[0] += 1
+                p_ = bytes([0xB0, s_, d_]) + counter[0].to_bytes(3, 'little') + bytes([len(tr)]) * rng.choice([0, 5, 40, 150])
+                rg.devices[s_].send_l2cap_pdu(cs.handle, CID, p_)
+                want[d_].append((cd.handle, p_))
+                meta[p_] = (tr, s_, d_, cd.handle)
+                if rng.random() < 0.3:
+                    await asyncio.sleep(0)
+        await rg.quiesce()
+        ok = True
+        for i in range(3):
+            have = ev.rx[i][marks[i]:]
+            r.ev('payloads_checked', len(want[i]))
+            r.ev('both_payloads_checked', len(want[i]))
+            r.ev('oracle_evals')
+            handles = {h for h, _ in want[i]} | {h for h, _ in have}
+            if all([x for x in have if x[0] == h] == [x for x in want[i] if x[0] == h] for h in handles):
+                continue
+            ok = False
+            hp = [p_ for _h, p_ in have]
+            wrong = [(h, p_) for h, p_ in have if p_ in meta and meta[p_][2] == i and meta[p_][3] != h]
+            foreign = [(h, p_) for h, p_ in have if p_ not in meta or meta[p_][2] != i]
+            lost = [w for w in want[i] if w[1] not in hp]
+            if wrong:
+                tr = meta[wrong[0][1]][0]
+                side = 'le-central' if meta[wrong[0][1]][1] == le_c else 'le-peripheral'
+                r.bad(f'data/wrong-handle/both/{phase}/sent-on-{tr}/by-{side}/{label}',
+                      f'device {i}: {len(wrong)} of {len(want[i])} PDUs came out under the handle of ANOTHER connection (first: sent on '
+                      f'the {tr} link for handle {meta[wrong[0][1]][3]:#x}, delivered under {wrong[0][0]:#x}); {ctx()}')
+            elif foreign:
+                r.bad(f'data/misdelivered/both/{phase}/{label}', f'device {i} received {len(foreign)} PDUs not meant for it; {ctx()}')
+            elif lost:
+                tr = meta[lost[0][1]][0]
+                side = 'le-central' if meta[lost[0][1]][1] == le_c else 'le-peripheral'
+                r.bad(f'data/lost/both/{phase}/sent-on-{tr}/by-{side}/{label}',
+                      f'device {i} never received {len(lost)} of {len(want[i])} PDUs; {ctx()}')
+            else:
+                r.bad(f'data/reordered-or-duplicated/both/{phase}/{label}',
+                      f'device {i} received {len(have)} PDUs, expected {len(want[i])}; {ctx()}')
+        return ok
+
+    async def end(tr, by):
+        l = links.pop(tr)
+        (x, cx), (y, cy) = sorted(l.items())
+        marks = {i: len(ev.disc[i]) for i in range(3)}
+        who = l[by]
+        await vloop.vwait(who.disconnect())
+        await rg.quiesce()
+        hist.append(f'{tr}-disconnected-by-{by}')
+        r.ev('disconnections_checked')
+        r.ev('oracle_evals', 2)
+        ok = True
+        for d, c in ((x, cx), (y, cy)):
+            got = [h for h, _reason in ev.disc[d][marks[d]:]]
+            if got != [c.handle]:
+                ok = False
+                r.bad(f'disconnect/not-reported-to-both/both/{tr}-ended/{label}',
+                      f'device {d}: disconnection events for handles {got}, the {tr} connection that ended is {c.handle:#x} '
+                      f'(by device {by}); {ctx()}')
+            if c.handle in rg.hosts[d].connections or rg.controllers[d].find_connection_by_handle(c.handle):
+                ok = False
+                r.bad(f'disconnect/stale-connection/both/{tr}-ended/{label}', f'device {d} still has handle {c.handle:#x}; {ctx()}')
+        if ev.disc[2][marks[2]:]:
+            ok = False
+            r.bad(f'disconnect/third-party/both/{tr}-ended/{label}', f'the bystander got {ev.disc[2][marks[2]:]}; {ctx()}')
+        return ok
+
+    extra_link = None
+    extra_tr = None
+    try:
+        # sometimes the bystander is connected to A first (LE with random addresses, or BR/EDR)
+        if rng.random() < 0.4:
+            extra_tr = rng.choice(['le', 'bredr'])
+            before = len(ev.conn[2])
+            if extra_tr == 'le':
+                t_ = await advertise_as(rg, 2, 'random')
+                c0 = await vloop.vwait(rg.devices[0].connect(t_, timeout=20))
+            else:
+                c0 = await vloop.vwait(rg.devices[0].connect(rg.devices[2].public_address, transport=PhysicalTransport.BR_EDR,
+                                                             timeout=20))
+            await rg.quiesce()
+            if len(ev.conn[2][before:]) != 1:
+                r.bad(f'connect/peer-events/both/bystander-{extra_tr}', f'{len(ev.conn[2][before:])} events; {ctx()}')
+                return
+            extra_link = {0: c0, 2: ev.conn[2][before]}
+            hist.append(f'bystander-connected-over-{extra_tr}')
+        order = rng.choice([('le', 'bredr'), ('bredr', 'le')])
+        for k, tr in enumerate(order):
+            if not await (connect_le() if tr == 'le' else connect_bredr()):
+                return
+            if k == 0 and rng.random() < 0.5:
+                if not await exchange('one-link'):
+                    return
+        r.ev('both_links_up')
+        r.ev(f'both_links_up_le_adv_{adv_kind}_init_{init_kind}')
+        if not handles_ok('both-links-up'):
+            return
+        if not await exchange('both-links-up'):
+            return
+        r.ev('both_exchanges_on_both_links')
+        # one link ends, the other must go on
+        first = rng.choice(['le', 'bredr'])
+        other = 'bredr' if first == 'le' else 'le'
+        if not await end(first, rng.choice([0, 1])):
+            return
+        if not handles_ok(f'{first}-ended') or not await exchange(f'{first}-ended'):
+            return
+        r.ev('both_survivor_exchanges')
+        if rng.random() < 0.5:
+            if not await (connect_le() if first == 'le' else connect_bredr()):
+                return
+            if not handles_ok('link-made-again') or not await exchange('link-made-again'):
+                return
+            r.ev('both_links_made_again')
+        for tr in rng.sample(sorted(links), len(links)):
+            if not await end(tr, rng.choice([0, 1])):
+                return
+            if links and not await exchange(f'{tr}-ended'):
+                return
+        r.ev('both_cases_completed')
+    except vloop.Hang:
+        r.bad('both/hang', f'a call was still pending at T_v; {ctx()}')
+    except (core.TimeoutError, asyncio.TimeoutError, core.ConnectionError, hci.HCI_Error, core.InvalidStateError) as e:
+        r.bad(f'both/call-failed/{type(e).__name__}', f'{type(e).__name__}: {e}; {ctx()}')
+    for where, e in rg.exceptions:
+        r.bad('link/exception-in-stack', f'{where}: {e}; both {ctx()}')
+    r.sig('both', tuple(ext), le_c, bi, adv_kind, init_kind, tuple(hist))
+    r.sched.add(rg.schedule_signature)
+    r.evals()
+    r.sample = {'kind': 'both', 'le_central': le_c, 'bredr_initiator': bi, 'le_adv': adv_kind, 'le_init': init_kind,
+                'history': hist}
+
+
+def on_air_random_address(rg, dev):
+    """The random address controller `dev` was last given (HCI_LE_Set_Random_Address, read from the HCI tap, not from
+    the Device or the Controller objects), and how many times it was given one."""
+    from bumble import hci
+    last, count = None, 0
+    for rec in rg.hci_log:
+        if rec[1] == dev and rec[2] == 'h2c' and rec[3][:4] == b'\x01\x05\x20\x06' and len(rec[3]) == 10:
+            last = hci.Address(bytes(rec[3][4:10]), hci.Address.RANDOM_DEVICE_ADDRESS)
+            count += 1
+    return last, count
+
+
+async def rpa(case, r: R):
+    """LE privacy: devices whose own random address is a resolvable private address that is rotated every
+    le_rpa_timeout seconds (0-3 rotations before a connection, and again between connections). A device with privacy is
+    connected to through its RANDOM own address, or connects with it, to a device with or without privacy: both ends
+    must report the connection with matching addresses (the central's own address is the acceptor's peer address and
+    the other way round), data goes to the peer only, a disconnection is reported to both."""
+    from bumble import hci, core
+    from bumble.device import DeviceConfiguration
+    from vlib import rig as vrig
+    rng = random.Random(case['seed'] ^ 0x4BA)
+    vrig.seed_entropy(case['seed'])
+    ext = [rng.random() < 0.4 for _ in range(3)]
+    timeout = rng.choice([2, 15, 60])
+    privacy = [True, rng.random() < 0.5, rng.random() < 0.3]
+    rng.shuffle(privacy)
+    configs = []
+    for i in range(3):
+        cfg = DeviceConfiguration()
+        cfg.name = f'dev{i}'
+        cfg.address = hci.Address(':'.join([f'{0xE0 + i:02X}'] * 6), hci.Address.RANDOM_DEVICE_ADDRESS)
+        cfg.le_privacy_enabled = privacy[i]
+        cfg.le_rpa_timeout = timeout
+        cfg.irk = bytes([0x50 + i]) * 16
+        configs.append(cfg)
+    rg = vrig.Rig(3, seed=case['seed'], max_delay=rng.choice([0, 0, 1, 3]), configs=configs)
+    for i, e in enumerate(ext):
+        if e:
+            rg.controllers[i].le_features = rg.controllers[i].le_features | hci.LeFeatureMask.LE_EXTENDED_ADVERTISING
+    await rg.power_on()
+    ev = Events(rg)
+    r.ev('rpa_cases')
+    hist = []
+    counter = [0]
+
+    def ctx():
+        return f'privacy={privacy} rpa timeout={timeout}s ext={ext}; history {hist}'
+
+    async def idle(rotations):
+        """Virtual time passes with nothing going on: the RPAs rotate."""
+        before = [on_air_random_address(rg, i)[1] for i in range(3)]
+        await rg.quiesce()
+        if rotations:
+            await asyncio.sleep(timeout * rotations + rng.choice([0.1, 0.5 * timeout]))
+            await rg.quiesce()
+        seen = [on_air_random_address(rg, i)[1] - before[i] for i in range(3)]
+        r.ev('rpa_rotations_seen', sum(seen))
+        hist.append(f'idle-{rotations}-periods')
+        return seen
+
+    async def connect(ci, pi):
+        air_c, n_c = on_air_random_address(rg, ci)
+        air_p, n_p = on_air_random_address(rg, pi)
+        rot = 'rotated' if (privacy[ci] and n_c > 1) or (privacy[pi] and n_p > 1) else 'not-rotated'
+        label = f'central-{"rpa" if privacy[ci] else "static"}/peripheral-{"rpa" if privacy[pi] else "static"}/{rot}'
+        before = len(ev.conn[pi])
+        P, C = rg.devices[pi], rg.devices[ci]
+        mark = len(rg.hci_log)
+        await vloop.vwait(P.start_advertising(auto_restart=False, own_address_type=hci.OwnAddressType.RANDOM,
+                                              advertising_interval_min=40, advertising_interval_max=40))
+        # the address the peripheral is reachable at is what its controller was told (a central would learn it by
+        # scanning): the controller's random address, or the random address of the advertising set made for this
+        for rec in rg.hci_log[mark:]:
+            if rec[1] == pi and rec[2] == 'h2c' and rec[3][:4] == b'\x01\x35\x20\x07' and len(rec[3]) == 11:
+                air_p = hci.Address(bytes(rec[3][5:11]), hci.Address.RANDOM_DEVICE_ADDRESS)
+                r.ev('rpa_peripheral_address_from_advertising_set')
+        try:
+            cc = await vloop.vwait(C.connect(air_p, own_address_type=hci.OwnAddressType.RANDOM, timeout=20))
+        except (core.TimeoutError, asyncio.TimeoutError, core.ConnectionError) as e:
+            r.bad(f'connect/failed/rpa/{label}', f'connect({air_p}) raised {type(e).__name__}: {e}; {ctx()}')
+            return None
+        await rg.quiesce()
+        new = ev.conn[pi][before:]
+        r.ev('oracle_evals')
+        if len(new) != 1:
+            r.bad(f'connect/peer-events/rpa/{label}', f'device {pi} got {len(new)} connection events; {ctx()}')
+            return None
+        pc = new[0]
+        hist.append(f'connected/{ci}->{pi}/{label}')
+        r.ev('rpa_connections')
+        if rot == 'rotated':
+            r.ev('rpa_connections_after_rotation')
+            if privacy[ci] and n_c > 1:
+                r.ev('rpa_connections_after_rotation_of_central')
+            if privacy[pi] and n_p > 1:
+                r.ev('rpa_connections_after_rotation_of_peripheral')
+        # both ends report the connection with matching addresses
+        r.ev('connections_checked')
+        r.ev('oracle_evals', 4)
+        ok = True
+        for what, got, want, wname in (
+                ("the central's self_address", cc.self_address, pc.peer_address, "the peripheral's peer_address"),
+                ("the peripheral's self_address", pc.self_address, cc.peer_address, "the central's peer_address"),
+                ("the central's self_address", cc.self_address, air_c, 'the random address its controller was given'),
+                ("the peripheral's self_address", pc.self_address, air_p, 'the random address it advertised with')):
+            if got != want:
+                ok = False
+                who = 'central' if 'central\'s self' in what else 'peripheral'
+                r.bad(f'connect/address-mismatch/rpa/{who}-self-address/{label}',
+                      f'{what} is {got!r} but {wname} is {want!r} (device {ci if who == "central" else pi} was given '
+                      f'{n_c if who == "central" else n_p} random addresses so far; its Device.random_address is '
+                      f'{(C if who == "central" else P).random_address!r}); {ctx()}')
+                break
+        if not ok:
+            return None
+        return cc, pc, label
+
+    async def exchange(ci, pi, cc, pc, label):
+        marks = {i: len(ev.rx[i]) for i in range(3)}
+        want = {i: [] for i in range(3)}
+        for (s_, d_, cs, cd) in ((ci, pi, cc, pc), (pi, ci, pc, cc)):
+            for _ in range(rng.randint(1, 4)):
+                counter[0] += 1
+                p_ = bytes([0xA9, s_, d_]) + counter[0].to_bytes(3, 'little') + bytes(rng.choice([0, 10, 60]))
+                rg.devices[s_].send_l2cap_pdu(cs.handle, CID, p_)
+                want[d_].append((cd.handle, p_))
+        await rg.quiesce()
+        ok = True
+        for i in range(3):
+            have = ev.rx[i][marks[i]:]
+            r.ev('payloads_checked', len(want[i]))
+            r.ev('oracle_evals')
+            if have != want[i]:
+                ok = False
+                r.bad(f'data/wrong/rpa/{label}', f'device {i} received {len(have)} PDUs, expected {len(want[i])}; {ctx()}')
+        return ok
+
+    try:
+        for rnd in range(rng.choice([1, 2, 2, 3])):
+            await idle(rng.choice([0, 1, 1, 2, 3]))
+            cands = [(a, b) for a in range(3) for b in range(3) if a != b and (privacy[a] or privacy[b])]
+            ci, pi = rng.choice(cands)
+            got = await connect(ci, pi)
+            if got is None:
+                return
+            cc, pc, label = got
+            if not await exchange(ci, pi, cc, pc, label):
+                return
+            if rng.random() < 0.4:
+                # time passes while connected (the central is idle and may rotate; the connection keeps its addresses)
+                await idle(1)
+                if not await exchange(ci, pi, cc, pc, label):
+                    return
+            da, db = len(ev.disc[ci]), len(ev.disc[pi])
+            await vloop.vwait(rng.choice([cc, pc]).disconnect())
+            await rg.quiesce()
+            r.ev('disconnections_checked')
+            r.ev('oracle_evals')
+            if [h for h, _ in ev.disc[ci][da:]] != [cc.handle] or [h for h, _ in ev.disc[pi][db:]] != [pc.handle]:
+                r.bad(f'disconnect/not-reported-to-both/rpa/{label}', f'{ev.disc[ci][da:]} / {ev.disc[pi][db:]}; {ctx()}')
+                return
+            hist.append('disconnected')
+        r.ev('rpa_cases_completed')
+    except vloop.Hang:
+        r.bad('rpa/hang', f'a call was still pending at T_v; {ctx()}')
+    except (hci.HCI_Error, core.InvalidStateError) as e:
+        r.bad(f'rpa/call-failed/{type(e).__name__}', f'{type(e).__name__}: {e}; {ctx()}')
+    finally:
+        for d in rg.devices:
+            if d.le_rpa_periodic_update_task:
+                d.le_rpa_periodic_update_task.cancel()
+    for where, e in rg.exceptions:
+        r.bad('link/exception-in-stack', f'{where}: {e}; rpa {ctx()}')
+    r.sig('rpa', tuple(ext), tuple(privacy), timeout, tuple(hist))
+    r.sched.add(rg.schedule_signature)
+    r.evals()
+    r.sample = {'kind': 'rpa', 'privacy': privacy, 'rpa_timeout': timeout, 'history': hist}
+
+
 def auto_restart_armed(hist):
     """Auto-restart belongs to the advertising that was running when the incoming connection was accepted; a
     stop_advertising() / start_advertising() made while that connection is up is the host's newer word."""
@@ -1437,7 +1888,7 @@ def auto_restart_armed(hist):
 def run_case(case, r: R):
     return {'mesh': mesh, 'steal': steal, 'scan': scan, 'churn': churn, 'parallel': parallel,
             'fragadv': fragadv, 'ghost': ghost, 'advsets': advsets, 'dual': dual, 'pending': pending,
-            'recon': recon}[case['kind']](case, r)
+            'recon': recon, 'both': both, 'rpa': rpa}[case['kind']](case, r)
 
 
 LEVEL_TEXT = ('Relations over connection/disconnection/advertisement events and a per-device fixed channel on 2-5 '
@@ -1445,7 +1896,7 @@ LEVEL_TEXT = ('Relations over connection/disconnection/advertisement events and 
               'delivery to the peer only, disconnection reported to both, advertising and scan-response data byte '
               'for byte; devices that advertise and initiate at once (advertising state on the air and in the Device vs '
               'a ledger), with an outgoing connect() still pending while they are connected to, and new connections after a '
-              'bulk transfer was cut by a disconnection; ~260 (quick) / ~5200 (thorough) generated topologies over every mix of public/random own '
+              'bulk transfer was cut by a disconnection, and the same two devices connected over LE and BR/EDR at once; ~260 (quick) / ~5200 (thorough) generated topologies over every mix of public/random own '
               'addresses, legacy/extended advertising, LE and BR/EDR. Sampling, not proof.')
 LEVEL_NOTE = 'Trusted: rig taps/inboxes (LocalLink routing itself is real), the event bookkeeping in checks/c06.py, virtual-time loop.'
 TECHNIQUE = 'runtime monitoring: event-log relation checker over multi-device executions with unique payload ids'
